@@ -81,6 +81,24 @@ CLAIMED = {
              'into a directory it has yet to read) are reported as KNOWN-FINDING lines.',
         technique='Lean 4 proof (dry-run independence of the evaluator, inspect output = action list, marker columns) + differential '
                   'execution of matches_inspect + dry-run/real-run comparison on the binary'),
+    'C07': dict(
+        text='PARTIAL. Machine-checked on the model, for every byte string: every decoder output fits the buffer its caller allocated '
+             '(base64: n <= strlen so dec[n] is inside the strlen+1 bytes; b64_pton never reports more than targsize; quoted-printable and '
+             'RFC 2047 never outgrow their input) (C07_decoders_fit); every probe of the header binary search and the slice it returns are '
+             'inside the table, sorted or not, and the search ends by itself (C07_search_in_bounds); findheader/skipline/findboundary return '
+             'pieces of the text they were given (C07_scanners_inside); the multipart loop ends by itself (fuel irrelevant), nesting beyond '
+             'the limit is an error, and the attachment table never holds more parts than the body has bytes (C07_multipart_terminates); '
+             'all model functions are total, so every message yields match, non-match or error. NOT a theorem: that the C code\'s pointers '
+             'are where the model\'s list suffixes are - a list model cannot express an out-of-bounds read. That part is observed: the real '
+             'parser, MIME code, decoders, evaluator, interpolation, dry-run rendering and message_write run under ASan+UBSan on structured '
+             'hostile seeds, their mutants and the inputs a coverage-guided search (libFuzzer) adds; the results of those same executions '
+             'are compared with the model; the real ASan binary runs every input in maildir and stdin mode with a time limit, exec/command '
+             'rules included, next to a control message that must still be handled.',
+        note='Trusted/not modelled: libks buffer/vector, malloc/realloc lifetimes (the repaired use-after-free of parseattachments is a '
+             'lifetime error no list model shows: it is caught by ASan on nested multiparts with >= 16 parts, which are in the seed corpus), '
+             'glibc regex, stdio. Inputs up to 64 KiB, C locale, fixed configuration battery (harness/fuzz/battery.conf).',
+        technique='Lean 4 proof of the bounds/progress facts + differential execution under ASan/UBSan on hostile inputs + coverage-guided '
+                  'search (libFuzzer) as the failing-input search'),
     'C08': dict(
         text='Machine-checked: for EVERY well-formed message (Spec.read: no NUL, header block of fields, one empty line, body not starting '
              'with a newline - the domain the property names) and every sequence of header settings (SetOk: no newline/NUL in the value, no '
@@ -220,7 +238,6 @@ CLAIMED.update({
 })
 
 NOT_YET = {
-    'C07': 'check under construction',
 }
 
 
